@@ -80,7 +80,8 @@ NATIVE_UNITS = {
     "sign_dot_known": {"file": "src/parser/lexer.rs", "source": "lexer_tokens.rs", "modpath": "parser::lexer",
                        "test": "verif_native_sign_dot_known", "role": "known", "finding": "sign-dot-identifier-rejected"},
     "reader_witness": {"file": "src/interpreter/interpreter.rs", "source": "reader_data.rs", "modpath": "interpreter::interpreter",
-                       "test": "verif_native_reader_witness", "role": "witness", "for_fns": []},
+                       "test": "verif_native_reader_witness", "role": "witness",
+                       "for_fns": ["datum", "current_datum", "parse_quoted", "vector", "advance", "advance_unwrap", "peek_next_token", "unwrap_non_end", "locate"]},
     "complete_witness": {"file": "src/repl.rs", "source": "repl_complete.rs", "modpath": "repl",
                          "test": "verif_native_complete_witness", "role": "witness",
                          "for_fns": ["check_bracket_closed", "witness_caller"]},
@@ -145,7 +146,7 @@ PROPS = {
                         "derive(Hash, Eq) make LibraryName a lawful HashSet key (vstd obeys_key_model)"],
     },
     "C06": {
-        "verus": ["lexer_tok"], "kani": [], "native": ["lexer_token_witness", "hash_token_known", "sign_dot_known", "reader_witness"],
+        "verus": ["lexer_tok", "parser_reader"], "kani": [], "native": ["lexer_token_witness", "hash_token_known", "sign_dot_known", "reader_witness"],
         "level": "proof",
         "explanation": "The lexer half of the reader: every scanner function of Lexer is proved, for texts of any length, against a "
                        "relation between the text at the start of a token, the token produced and the text left over. Whitespace and "
@@ -154,9 +155,15 @@ PROPS = {
                        "(ordinary, peculiar, |quoted|) carry exactly the characters they were read from and ordinary / peculiar "
                        "identifiers and all numbers end only at a delimiter or the end of the text; a string literal's contents are its "
                        "characters with the mnemonic escapes translated; an integer / ratio token is str::parse of its digits (ratio: "
-                       "denominator not zero), a decimal's literal text is the characters consumed; ( ) ' ` , ,@ #( #u8( #t #f #\\c . map to their tokens.",
-        "unverified": ["the reader proper (parser.rs: nested lists, dotted tails, vector syntax, quote abbreviations -> Datum): generic "
-                       "iterator code, not under contract -- a breakage confined to it is not detected",
+                       "denominator not zero), a decimal's literal text is the characters consumed; ( ) ' ` , ,@ #( #u8( #t #f #\\c . map to their tokens. "
+                       "The reader proper (unit parser_reader): Parser::datum / current_datum / parse_quoted / vector / advance / advance_unwrap / "
+                       "peek_next_token are proved, for token sequences of any length, against a recursive definition of the datum a token "
+                       "sequence denotes (rd_tok / rd_at / rd_list / rd_vec, R7RS 7.1.2): which datum each token starts, that 'x is (quote x) at any "
+                       "nesting, and that reading stops exactly after the datum -- relative to ASSUMED contracts of the two loops (see unverified).",
+        "unverified": ["Parser::current_list_or_pair (the list / dotted-tail loop: a &mut cursor into the list being built) and Parser::repeat "
+                       "(the vector loop: a lazy iterator of closures over &mut self) are outside Verus: their contracts (rd_list, rd_vec) are ASSUMED; "
+                       "they are checked only by the BOUNDED enumeration of reader_witness (every token sequence of length <= 6 over ( ) . ' #( a 1 "
+                       "against an independent reference reader: structure and number of tokens consumed) -- bounded, not counted as proved",
                        "the value of a decimal literal (f32/f64 FromStr at evaluation time) and of str::parse on digits (std)",
                        "string escapes \\x<hex>; and \\<space> (not translated by this lexer: stated as unspecified in scan_string)",
                        "#true / #false / character names (#\\space ...): not supported by the lexer"],
@@ -185,7 +192,7 @@ PROPS = {
     },
     "C07": {
         "verus": ["pair_pop", "values_num", "interp_tail", "interp_eval", "repl_complete", "macro_transform", "macro_match", "lexer_pos", "base_cmp", "base_folds", "base_pairs",
-                  "interp_import", "interp_import_union", "interp_library", "interp_loader"],
+                  "interp_import", "interp_import_union", "interp_library", "interp_loader", "parser_reader"],
         "kani": ["values", "folds"], "native": ["panic_probe", "tail_arity_panic", "vector_panic_witness"],
         "level": "proof",
         "explanation": "Panic-freedom (no overflow, no failing unwrap/expect, no reachable todo!/unreachable!/panic!, no out-of-bounds index) "
